@@ -51,7 +51,7 @@ MinTok(h) ==
   CASE h.ty.h \in {"num", "row", "item", "iconst", "key", "ev"} -> 1
     [] h.ty.h = "root" -> 3
     [] h.ty.h = "bool" -> IF Prof.boolConst THEN 1 ELSE 3
-    [] h.ty.h = "obj" -> IF VarsOf(h.env, h.ty) # {} THEN 1 ELSE 4
+    [] h.ty.h = "obj" -> IF VarsOf(h.env, h.ty) # {} THEN 1 ELSE 3
     [] h.ty.h \in {"seq", "vec"} -> IF VarsOf(h.env, S(h.ty.e)) # {} THEN 1 ELSE 2
     [] h.ty.h = "evseq" -> 1
     [] h.ty.h = "top" -> 3
